@@ -10,18 +10,18 @@ import (
 // C02: a successful Flush makes the entire store state durable.
 
 var mixC02 = Mix{Set: 30, Delete: 10, GetItem: 3, Visit: 2, Flush: 14, Evict: 4, Reopen: 5,
-	SetCollNew: 3, SetCollExisting: 1, RemoveColl: 3, Snapshot: 1, SnapClose: 1, CollWrite: 1, FaultyFlush: 2, FlushRevert: 1}
+	SetCollNew: 3, SetCollExisting: 1, RemoveColl: 3, Snapshot: 2, SnapClose: 1, CollWrite: 2, FaultyFlush: 2, FlushRevert: 2}
 
 func init() {
 	register(&Prop{
 		ID: "C02", Level: "exploration",
-		Rule: "case = random history over 2-4 collections (plain and exotic names, boundary key/value sizes) with Flush density 5-30%, collection creation/removal between flushes, Collection.Write(), evictions, flushes that FAIL on one of their writes (outright or torn) and are retried, occasional FlushRevert (the expected durable state is then the flush before), and 0-5 re-opens after which the history continues on the re-opened store. After every successful Flush, after each of the following 6 steps, at every re-open and at the end, a SECOND store is opened on a copy of the current file image and its complete state (collection names, keys, values, priorities, totals, min/max) is compared with the model's state at the most recent successful Flush; the same image is decoded by the independent decoder. Unflushed work (incl. created/removed collections) must never be visible there. Concurrent cases: the flusher runs next to the mutator under the deterministic scheduler and every image it produced must decode to versions that were current during that Flush. Non-trivial = at least two flushes with mutations between them, unflushed changes pending at some re-open comparison, and a collection created or removed; distinct = distinct op-trace hash.",
+		Rule: "case = random history over 2-4 collections (plain and exotic names, boundary key/value sizes) with Flush density 5-30%, collection creation/removal between flushes, Collection.Write(), evictions, flushes that FAIL on one of their writes (outright or torn) and are retried, occasional FlushRevert (the expected durable state is then the flush before; in half of the cases a reader goroutine lists the collections in the middle of it), Collection.Write() called through a snapshot handle, one case in seven under an item-substituting BeforeItemWrite/AfterItemRead codec, and 0-5 re-opens after which the history continues on the re-opened store. After every successful Flush, after each of the following 6 steps, at every re-open and at the end, a SECOND store is opened on a copy of the current file image and its complete state (collection names, keys, values, priorities, totals, min/max) is compared with the model's state at the most recent successful Flush; the same image is decoded by the independent decoder. Unflushed work (incl. created/removed collections) must never be visible there. Concurrent cases: the flusher runs next to the mutator under the deterministic scheduler and every image it produced must decode to versions that were current during that Flush. Non-trivial = at least two flushes with mutations between them, unflushed changes pending at some re-open comparison, and a collection created or removed; distinct = distinct op-trace hash.",
 		Assumptions: []string{"collection names are valid UTF-8 (invalid UTF-8 names are a recorded input class)", "single goroutine",
 			"a Flush that returned an error is not a successful Flush: its (possibly complete) root record is not an expected durable state; the full enumeration of fault points is C07's"},
 		NumCases: func(tier string) int { return pick(tier, 1000, 40000) + pick(tier, 300, 9000) },
 		Run:      runC02,
 		Floor: func(tier string, st map[string]int64) string {
-			for _, k := range []string{"op.Flush", "op.Reopen", "reopen-compares", "decodes", "op.RemoveCollection", "op.CollWrite", "c02.pending-at-compare", "failed-flushes", "retried-flushes", "c02.concurrent-flush-cases"} {
+			for _, k := range []string{"op.Flush", "op.Reopen", "reopen-compares", "decodes", "op.RemoveCollection", "op.CollWrite", "c02.pending-at-compare", "failed-flushes", "retried-flushes", "c02.concurrent-flush-cases", "reads-during-revert", "op.SnapCollWrite"} {
 				if st[k] == 0 {
 					return "no " + k + " observed"
 				}
@@ -44,12 +44,15 @@ func runC02(ctx *Ctx, idx int) Result {
 		ctx.Stats["c02.concurrent-flush-cases"]++
 		return res
 	}
-	cfg := driver.Config{ReadbackK: []int{0, 3, 9}[r.Intn(3)], ReopenCheck: true, Decode: true}
+	cfg := driver.Config{ReadbackK: []int{0, 3, 9}[r.Intn(3)], ReopenCheck: true, Decode: true, ReaderInRevert: idx%2 == 0}
+	if idx%7 == 3 {
+		cfg.CB = driver.CBSwap // a BeforeItemWrite/AfterItemRead pair that writes a substitute item
+	}
 	mix := mixC02
 	mix.Flush = r.Range(5, 30)
 	hc := HistCfg{Steps: r.Range(25, 90), NColls: r.Range(2, 4), NKeys: r.Range(4, 16), KeyClass: gen.KeyClass(r.Intn(int(gen.NumKeyClasses))),
 		ValClass: []gen.ValClass{gen.ValsMixed, gen.ValsMagic}[r.Intn(2)], Prio: gen.PrioRegime(r.Intn(int(gen.NumPrioRegimes))), Mix: mix, Exotic: r.P(40), MaxSnaps: 1, UseSetPct: 5}
-	if hc.KeyClass == gen.KeysMixed && hc.NKeys > 6 {
+	if (hc.KeyClass == gen.KeysMixed || hc.KeyClass == gen.KeysLong) && hc.NKeys > 6 {
 		hc.NKeys = 6
 	}
 	h := NewHist(r, cfg, hc, fmt.Sprintf("c02-%d", idx))
